@@ -190,3 +190,77 @@ def raise_loc(p: Path, default=""):
     if p.outcome == "raise" and p.exc.func is not None:
         return p.exc.func.loc(p.exc.node)
     return default
+
+
+# ------------------------------------------------------------ abstract scorers
+
+
+def abstract_scorer(ex, P, base_qualname, key, width=2, min_size=None, param="fixed", evaluation_type="univariate", ncols=None):
+    """An arbitrary (user-defined) scorer of the given base class: its `evaluate` is an
+    uninterpreted function of (object, data it was last fitted on, cuts)."""
+    cls = P.cls(base_qualname)
+    o = ObjV(cls, key, {}, abstract=True, role=key)
+    o.fields["min_size"] = Num(min_size if min_size is not None else sym(f"min_size({key})"), (), "int")
+    o.fields["evaluation_type"] = StrV(evaluation_type)
+    o.fields["expected_cut_entries"] = Num(NF.const(width), (), "int")
+    if param == "fixed":
+        o.fields["param"] = Num(sym(f"param({key})"), (), "float")
+    elif param == "none":
+        o.fields["param"] = NONE
+    o.meta["fitted_on"] = "UNFITTED"
+    o.meta["ncols"] = ncols
+    return o
+
+
+def _abs_fit(ex, obj, args, kwargs, node):
+    data = args[0] if args else kwargs.get("X")
+    obj.meta["fitted_on"] = valkey(data)
+    obj.meta["fitted_val"] = data
+    obj.fields["_is_fitted"] = Num(None, (), "bool", cond=Cond.const(True))
+    obj.fields["_X"] = data
+    ex.emit("scorer_fit", node, obj=obj, data=data)
+    return obj
+
+
+def _abs_evaluate(ex, obj, args, kwargs, node):
+    cuts = args[0] if args else kwargs.get("cuts")
+    if isinstance(cuts, (ListV, TupleV)):
+        cuts = ex.models._np_array(ex, [cuts], {}, node)
+        if cuts.shape is not None and len(cuts.shape) == 1:
+            cuts = Num(cuts.nf, (NF.const(1),) + tuple(cuts.shape), cuts.dtype)
+    rows = cuts.shape[0] if isinstance(cuts, Num) and cuts.shape is not None and len(cuts.shape) == 2 else (NF.const(1) if isinstance(cuts, Num) and cuts.shape is not None else None)
+    data = obj.meta.get("fitted_val")
+    ncols = obj.meta.get("ncols")
+    if ncols is None:
+        if obj.fields.get("evaluation_type") is not None and getattr(obj.fields["evaluation_type"], "s", None) == "multivariate":
+            ncols = NF.const(1)
+        elif isinstance(data, Num) and data.shape is not None and len(data.shape) == 2:
+            ncols = data.shape[1]
+        else:
+            ncols = sym(f"ncols({obj.key})")
+    shape = (rows, ncols) if rows is not None else None
+    r = ex.mk("eval", obj.key, obj.meta.get("fitted_on", "UNFITTED"), ex.as_nf(cuts, node) if isinstance(cuts, Num) else valkey(cuts), shape=shape, dtype="float")
+    r.meta["eval"] = (obj, cuts)
+    ex.emit("scorer_evaluate", node, obj=obj, cuts=cuts, fitted_on=obj.meta.get("fitted_on"), result=r)
+    return r
+
+
+def _abs_check_is_fitted(ex, obj, args, kwargs, node):
+    ex.emit("check_is_fitted", node, obj=obj)
+    return NONE
+
+
+def _abs_get_param_size(ex, obj, args, kwargs, node):
+    p = args[0]
+    return ex.mk("param_size", obj.key, p.nf, shape=(), dtype="int")
+
+
+ABSTRACT_SUMMARIES = {
+    "abstract:fit": _abs_fit,
+    "abstract:evaluate": _abs_evaluate,
+    "abstract:get_param_size": _abs_get_param_size,
+}
+
+
+def eval_atom(objkey, fitted_on, *cols):
+    return app("eval", objkey, fitted_on, app("colstack", tuple(lift(c) for c in cols)))
